@@ -309,11 +309,16 @@ static var fn_len_gt(var x) { return (long long)strlen(c_str(x)) > view_k ? x : 
  *           | q Tree KCell->Int | u heap Tuple of the objects themselves | c chain  head Ref -> link -> Tracked -> link -> ...
  *           (links are heap Refs for even serials, heap Boxes for odd ones; the next link hangs off the LAST word of the
  *           Tracked struct: a plain struct traced by the conservative scan) | s thread-local storage set(current(Thread), key, obj)
+ *           | w the table of a Thread object that is NOT the running thread: `var t = new(Thread, f); set(t, key, obj);` — t is held
+ *           in a variable, not started (or started later with `hrun`); Thread_Mark must present its table whichever thread marks
  *   hnew h kind | hput h k id pay   (new Tracked(id, pay) stored under key k / at index k <= len)
  *   hget h k | hread h              (every element read back: key, serial, payload; type and payload are checked)
  *   hrem h k  (removed and deleted)  | hrel h k  (removed only: garbage for the collector, a leak under CELLO_NGC)
  *   hshrink h n (resize: elements >= n released; maps and thread-local storage only n = 0) | hreserve h n (Table rehash)
  *   hchurn m  (m short-lived Ints: allocation pressure)   | hdrop h (handle forgotten) | hdel h (everything deleted)
+ *   hrun h    (kind w only: `call(t, h); join(t);` — the started thread, whose current(Thread) is t, reads every entry back through
+ *             get(current(Thread), key): count and sum of the payloads; the main thread waits in join, so no collection of the main
+ *             thread's collector runs meanwhile — the unsynchronised walk of a RUNNING thread's table is KF-C13-mark-foreign-tls)
  * Ledger: the destructor of Tracked counts.  An object that is still stored in a live holder must never have been
  * finalised; no object is finalised twice; an explicit del finalises at once.  Audited after every operation, so a
  * prematurely collected object is an oracle failure (and is never dereferenced afterwards). */
@@ -345,10 +350,10 @@ static KH kh[MAXH];
 static var* HH;                    /* the holders: an array in main's frame */
 static var kp[MAXE], kl[MAXE];     /* scratch for pointers (static storage: not scanned by the collector); cleared after use */
 static long long kk_[MAXE];
-static size_t n_keep = 0, n_keep_reads = 0, n_high = 0;
+static size_t n_keep = 0, n_keep_reads = 0, n_high = 0, n_thread_runs = 0;
 
 static int k_isseq(int kind) { return kind == 'a' || kind == 'l' || kind == 'u' || kind == 'c'; }
-static int k_ismap(int kind) { return kind == 't' || kind == 'k' || kind == 'r' || kind == 'q' || kind == 's'; }
+static int k_ismap(int kind) { return kind == 't' || kind == 'k' || kind == 'r' || kind == 'q' || kind == 's' || kind == 'w'; }
 static int k_pos(KH* h, long long k) {
   if (k_isseq(h->kind)) return (k >= 0 && k < h->n) ? (int)k : -1;
   for (int i = 0; i < h->n; i++) if (h->key[i] == k) return i;
@@ -382,6 +387,7 @@ static __attribute__((noinline)) var k_fetch(int h, int pos, long long k) {
     case 't': case 'r': p = deref(get(c, $I(k))); break;
     case 'k': case 'q': { foreach (kk in c) { struct KCell* q = kk; if (q->k == k) { p = q->obj; break; } } } break;
     case 's': k_tls_key(key, sizeof key, h, k); p = get(current(Thread), $S(key)); break;
+    case 'w': k_tls_key(key, sizeof key, h, k); p = get(c, $S(key)); break;
     case 'c': { var L = deref(c); for (int i = 0; i < pos; i++) { struct Tracked* t = deref(L); L = t->link; } p = deref(L); } break;
   }
   return p;
@@ -410,6 +416,7 @@ static __attribute__((noinline)) void k_put(int h, int pos, long long k, int id,
     case 't': case 'r': set(c, $I(k), $R(o)); break;
     case 'k': case 'q': set(c, $(KCell, k, o), $I(pay)); break;
     case 's': k_tls_key(key, sizeof key, h, k); set(current(Thread), $S(key), o); break;
+    case 'w': k_tls_key(key, sizeof key, h, k); set(c, $S(key), o); break;
     case 'c': {
       var L = (id % 2) ? (var)new(Box, o) : (var)new(Ref, o);
       if (pos == 0) { ((struct Tracked*)o)->link = deref(c); ref(c, L); }
@@ -429,6 +436,7 @@ static __attribute__((noinline)) var k_take(int h, int pos, long long k, var* li
     case 't': case 'r': rem(c, $I(k)); break;
     case 'k': case 'q': rem(c, $(KCell, k, NULL)); break;
     case 's': k_tls_key(key, sizeof key, h, k); rem(current(Thread), $S(key)); break;
+    case 'w': k_tls_key(key, sizeof key, h, k); rem(c, $S(key)); break;
     case 'c': {
       struct Tracked* me = p;
       if (pos == 0) { *link = deref(c); ref(c, me->link); }
@@ -463,6 +471,13 @@ static __attribute__((noinline)) int k_collect(int h) {
         kk_[n] = kh[h].key[i]; kp[n] = get(current(Thread), $S(key)); n++;
       }
       break;
+    case 'w':
+      for (int i = 0; i < kh[h].n; i++) {
+        k_tls_key(key, sizeof key, h, kh[h].key[i]);
+        if (!mem(c, $S(key))) continue;
+        kk_[n] = kh[h].key[i]; kp[n] = get(c, $S(key)); n++;
+      }
+      break;
     case 'c': {
       var L = deref(c);
       while (L && n < MAXE) { struct Tracked* t = deref(L); kl[n] = L; kp[n] = t; kk_[n] = n; n++; L = t->link; }
@@ -487,6 +502,29 @@ static __attribute__((noinline)) void k_delete_all(int h) {
   }
   memset(kp, 0, sizeof kp); memset(kl, 0, sizeof kl);
   HH[h] = NULL;
+}
+/* kind w, `hrun`: the body of the started thread.  Its current(Thread) is the holder object itself, so the entries main stored with
+ * set(t, key, obj) are this thread's thread-local storage.  It only reads (no `new`: the thread's own collector stays empty). */
+static var keep_fn;                /* $(Function, keep_thread_fn), lives in main's frame */
+static struct { int h, n, dead, self_ok; long long sum; } k_run;
+static var keep_thread_fn(var args) {
+  int h = k_run.h; char key[48];
+  var me = current(Thread);
+  k_run.self_ok = (me == HH[h]);
+  for (int i = 0; i < kh[h].n; i++) {
+    if (led[kh[h].id[i]].fin) { k_run.dead++; continue; }          /* lost object: never dereferenced */
+    k_tls_key(key, sizeof key, h, kh[h].key[i]);
+    if (!mem(me, $S(key))) continue;
+    struct Tracked* t = get(me, $S(key));
+    if (t == NULL || type_of(t) != Tracked) continue;
+    k_run.n++; k_run.sum += t->pay;
+  }
+  return NULL;
+}
+static __attribute__((noinline)) void k_run_thread(int h) {
+  memset(&k_run, 0, sizeof k_run); k_run.h = h;
+  call(HH[h], $I(h));
+  join(HH[h]);
 }
 static int k_cmp_idx(const void* a, const void* b) { long long x = kk_[*(const int*)a], y = kk_[*(const int*)b]; return x < y ? -1 : x > y; }
 
@@ -1392,7 +1430,7 @@ static void run_op(int nt, char** t) {
   }
   /* ---------------- keep programs: containers as the sole path to collector-managed objects (O lines: the model has them) */
   if (op[0] == 'h' && (!strcmp(op, "hnew") || !strcmp(op, "hput") || !strcmp(op, "hget") || !strcmp(op, "hread") || !strcmp(op, "hrem")
-      || !strcmp(op, "hrel") || !strcmp(op, "hshrink") || !strcmp(op, "hreserve") || !strcmp(op, "hchurn") || !strcmp(op, "hdrop") || !strcmp(op, "hdel"))) {
+      || !strcmp(op, "hrel") || !strcmp(op, "hshrink") || !strcmp(op, "hreserve") || !strcmp(op, "hchurn") || !strcmp(op, "hdrop") || !strcmp(op, "hdel") || !strcmp(op, "hrun"))) {
     int h = 0; long long k = 0, id = 0, pay = 0; KH* s = NULL;
     if (!strcmp(op, "hchurn")) {
       if (nt != 2 || !parse_int(t[1], &n)) BAD();
@@ -1406,7 +1444,7 @@ static void run_op(int nt, char** t) {
     }
     if (nt < 2 || !parse_slot(t[1], &h)) BAD();
     if (!strcmp(op, "hnew")) {
-      if (nt != 3 || strlen(t[2]) != 1 || !strchr("altkrqucs", t[2][0])) BAD();
+      if (nt != 3 || strlen(t[2]) != 1 || !strchr("altkrqucsw", t[2][0])) BAD();
     } else if (!strcmp(op, "hput")) {
       if (nt != 5 || !parse_int(t[2], &k) || !parse_int(t[3], &id) || !parse_int(t[4], &pay)) BAD();
     } else if (!strcmp(op, "hget") || !strcmp(op, "hrem") || !strcmp(op, "hrel") || !strcmp(op, "hshrink") || !strcmp(op, "hreserve")) {
@@ -1429,6 +1467,7 @@ static void run_op(int nt, char** t) {
           case 'u': HH[h] = new(Tuple); break;
           case 'c': HH[h] = new(Ref); ref(HH[h], NULL); break;
           case 's': HH[h] = NULL; break;
+          case 'w': HH[h] = new(Thread, keep_fn); break;
         }
       });
       if (exc) { unexpected(exc); O("err %s", v_exc_name(exc)); return; }
@@ -1478,6 +1517,7 @@ static void run_op(int nt, char** t) {
       n_exec++; n_keep++;
       V_TRY(exc, {
         if (s->kind == 's') { char key[48]; for (int i = 0; i < s->n; i++) { k_tls_key(key, sizeof key, h, s->key[i]); rem(current(Thread), $S(key)); } }
+        else if (s->kind == 'w') { char key[48]; for (int i = 0; i < s->n; i++) { k_tls_key(key, sizeof key, h, s->key[i]); rem(HH[h], $S(key)); } }
         else if (s->kind == 'c') {
           if (k == 0) ref(HH[h], NULL);
           else { var L = deref(HH[h]); struct Tracked* q = deref(L); for (int i = 1; i < k; i++) { L = q->link; q = deref(L); } q->link = NULL; }
@@ -1500,7 +1540,7 @@ static void run_op(int nt, char** t) {
     if (!strcmp(op, "hread")) {
       n_exec++; n_keep++; n_keep_reads++;
       int cnt = 0; size_t ln = 0;
-      V_TRY(exc, { cnt = k_collect(h); if (s->kind != 's' && s->kind != 'c') ln = len(HH[h]); else ln = (size_t)cnt; });
+      V_TRY(exc, { cnt = k_collect(h); if (s->kind != 's' && s->kind != 'c' && s->kind != 'w') ln = len(HH[h]); else ln = (size_t)cnt; });
       if (exc) { unexpected(exc); O("err %s", v_exc_name(exc)); return; }
       if (cnt != s->n || ln != (size_t)s->n) { snprintf(e1, sizeof e1, "%d/%zu", cnt, ln); snprintf(e2, sizeof e2, "%d", s->n); XF("keep-length", e1, e2); }
       if (cnt > MAXE) cnt = MAXE;
@@ -1527,6 +1567,18 @@ static void run_op(int nt, char** t) {
         O("hread n=%d [%s] slots=%zu high=%zu", cnt, buf1, tb->nslots, high);
       } else O("hread n=%d [%s]", cnt, buf1);
       k_scrub(); return;
+    }
+    if (!strcmp(op, "hrun")) {
+      if (s->kind != 'w') OOC();
+      n_exec++; n_keep++; n_keep_reads++; n_thread_runs++;
+      V_TRY(exc, k_run_thread(h));
+      if (exc) { unexpected(exc); O("err %s", v_exc_name(exc)); return; }
+      long long want = 0; for (int i = 0; i < s->n; i++) want += led[s->id[i]].pay;
+      if (!k_run.self_ok) XF("keep-thread-current", "current(Thread) in the started thread is not the Thread object", "the Thread object");
+      if (k_run.dead) { snprintf(e1, sizeof e1, "%d entries finalised", k_run.dead); XF("keep-thread-read", e1, "alive"); }
+      else if (k_run.n != s->n || k_run.sum != want) { snprintf(e1, sizeof e1, "n=%d sum=%lld", k_run.n, k_run.sum); snprintf(e2, sizeof e2, "n=%d sum=%lld", s->n, want); XF("keep-thread-read", e1, e2); }
+      O("hrun n=%d sum=%lld", k_run.n, k_run.sum);
+      k_scrub(); k_audit(op); return;
     }
     if (!strcmp(op, "hdrop") || !strcmp(op, "hdel")) {
       n_exec++; n_keep++;
@@ -1566,6 +1618,7 @@ int main(int argc, char** argv) {
   var tslots[MAXT]; memset(tslots, 0, sizeof tslots); TS = tslots;
   var hslots[MAXH]; memset(hslots, 0, sizeof hslots); HH = hslots;
   var nslots_[MAXN]; memset(nslots_, 0, sizeof nslots_); NS = nslots_;
+  keep_fn = $(Function, keep_thread_fn);
   size_t n; char** lines = v_read_lines(argv[1], &n);
   I("cfg=%s opt=%s header=%zu cache=%d", VCFG, VOPT, sizeof(struct Header), (int)CELLO_CACHE_NUM);
   for (size_t li = 0; li < n; li++) {
@@ -1601,6 +1654,6 @@ int main(int argc, char** argv) {
   k_audit("teardown");
   O("end live=%zu holders=%zu", live, hlive);
   fprintf(vout, "T end tuples=%zu nested=%zu\n", tlive, nlive);
-  I("executed=%zu out-of-contract=%zu bad=%zu oracle-failures=%zu keep-ops=%zu keep-reads=%zu high-slot-entries-read=%zu tracked=%d edits=%zu elem-edits=%zu nested-ops=%zu", n_exec, n_ooc, n_bad, n_x, n_keep, n_keep_reads, n_high, led_top, n_ed, n_ed_elem, n_nested);
+  I("executed=%zu out-of-contract=%zu bad=%zu oracle-failures=%zu keep-ops=%zu keep-reads=%zu high-slot-entries-read=%zu tracked=%d edits=%zu elem-edits=%zu nested-ops=%zu thread-runs=%zu", n_exec, n_ooc, n_bad, n_x, n_keep, n_keep_reads, n_high, led_top, n_ed, n_ed_elem, n_nested, n_thread_runs);
   return 0;
 }
